@@ -502,23 +502,21 @@ def run(eng, rep) -> None:
         for _, _, ft in fields:
             used |= shape_constructors(ft)
     need = {SHAPE_TO_CLASS[k] for k in used if k in SHAPE_TO_CLASS}
-    for root in ("fcp.serde._encode", "fcp.serde._decode"):
-        disp = None
-        for q in cg.reachable(["fcp.serde.encode" if "encode" in root else "fcp.serde.decode"]):
-            f = prog.functions[q]
-            tests = [n for n in walk_local(f.node) if isinstance(n, ast.Call) and dotted(n.func) == "isinstance"]
-            if len(tests) >= 5 and f.module.name == "fcp.serde":
-                disp = f
-                handled = set()
-                for t in tests:
-                    cs_ = t.args[1].elts if isinstance(t.args[1], ast.Tuple) else [t.args[1]]
-                    for c in cs_:
-                        handled.add((dotted(c) or "").split(".")[-1])
-                miss = sorted(need - handled)
-                rep.check(not miss, "R12.3", f.file, f.qual, "dispatch covers reflection.fcp constructors", "handles %s" % sorted(need),
-                          "reflection.fcp uses %s which the codec dispatcher does not handle" % miss)
-        if disp is None:
+    from .codec_py import find_dispatcher, ENC as _ENC, DEC as _DEC
+    for root in (_ENC, _DEC):
+        f = find_dispatcher(eng, root)
+        if f is None:
             rep.undecided("R12.3", "src/fcp/serde.py", root, "dispatcher", "not found")
+            continue
+        tests = [n for n in walk_local(f.node) if isinstance(n, ast.Call) and dotted(n.func) == "isinstance" and len(n.args) == 2]
+        handled = set()
+        for t in tests:
+            cs_ = t.args[1].elts if isinstance(t.args[1], ast.Tuple) else [t.args[1]]
+            for c in cs_:
+                handled.add((dotted(c) or "").split(".")[-1])
+        miss = sorted(need - handled)
+        rep.check(not miss, "R12.3", f.file, f.qual, "dispatch covers reflection.fcp constructors", "handles %s" % sorted(need),
+                  "reflection.fcp uses %s which the codec dispatcher does not handle" % miss)
 
     # ---- R12.5 ---------------------------------------------------------------------
     enc = prog.functions.get("fcp.__main__.encode")
